@@ -230,6 +230,18 @@ func (e EOFReaderAt) ReadAt(p []byte, off int64) (int, error) {
 	return n, nil
 }
 
+// EOFSeeker is a legal io.ReadSeeker whose Read reports io.EOF together with the last bytes.
+type EOFSeeker struct{ R *bytes.Reader }
+
+func (e EOFSeeker) Read(p []byte) (int, error) {
+	n, err := e.R.Read(p)
+	if err == nil && e.R.Len() == 0 && n > 0 {
+		return n, io.EOF
+	}
+	return n, err
+}
+func (e EOFSeeker) Seek(off int64, whence int) (int64, error) { return e.R.Seek(off, whence) }
+
 // CountingReader counts bytes delivered and calls.
 type CountingReader struct {
 	R     io.Reader
